@@ -225,6 +225,10 @@ struct linq_head *get_head(struct linq *linq, struct trace *trace) {
 
   char *target = read_entry(get_string(get_view(link)), linq, trace);
   free_buffer(link);
+  if (!ok(trace)) {
+    free(head);
+    return NULL;
+  }
 
   char *path = target;
   head->metadata = 0;
